@@ -159,6 +159,7 @@ def gen_scenario(rng, idx, thorough=False):
                     f["seconds"] = round(rng.uniform(0.05, 1.5), 3)
                 spec["faults"].append(f)
     add_handout_failures(spec)
+    add_round3(spec)
     return spec
 
 
@@ -187,6 +188,60 @@ def add_handout_failures(spec):
         for _ in range(rx.randint(2, 6)):
             spec["corrupt"].append({"client": rx.choice(cids), "nth": rx.randint(0, 15),
                                     "which": rx.choice(["last", "last", "second", "first"])})
+
+
+FATAL_CODES = {
+    "OffsetCommit": [30, 29, 12, 28],     # group / topic authorization, metadata too large, invalid commit size
+    "Heartbeat": [30, 24],                # group authorization, "unexpected" (invalid group id)
+    "JoinGroup": [30, 24],
+    "SyncGroup": [30, 24],
+}
+
+
+def add_round3(spec):
+    """more environments in which the anchored mechanisms matter (own random stream again):
+    * think     the application is busy between polls (data piles up in the fetch buffer)
+    * fatal     NON-retriable coordination errors (authorization, unexpected codes) at OffsetCommit /
+                Heartbeat / JoinGroup / SyncGroup: they are parked for the application and raised by its next
+                getone()/getmany(); the application catches them and goes on polling and committing
+    * stale_oor an old Fetch is answered late, after the partition moved to another leader and the member
+                has fetched on from there, with OFFSET_OUT_OF_RANGE for that partition (install_stale_oor)
+    * idle      a member with a small max_poll_interval_ms whose application stops polling for longer than
+                that (it leaves the group by itself) and then polls again
+    * slow      a member whose revoke callback lasts longer than its session timeout (but less than the
+                rebalance timeout): only its heartbeats keep it in the group during the callback"""
+    import random
+    rx = random.Random(spec["seed"] ^ 0x0BADC0DE)
+    members = spec["members"]
+    for m in members:
+        m["think_ms"] = rx.choice([0, 0, 0, 50, 300])
+        m["max_poll_ms"] = None
+        m["idle"] = None
+        m["session_ms"] = None
+        m["rev_sleep"] = None
+    if rx.random() < 0.4:
+        for _ in range(rx.randint(1, 3)):
+            api = rx.choice(["OffsetCommit", "OffsetCommit", "OffsetCommit", "Heartbeat", "JoinGroup", "SyncGroup"])
+            spec["faults"].append({"kind": "error", "api": api, "client": rx.choice(members)["cid"],
+                                   "nth": rx.randint(0, 12 if api in ("OffsetCommit", "Heartbeat") else 3),
+                                   "code": rx.choice(FATAL_CODES[api]), "count": 1})
+    spec["stale_oor"] = []
+    if spec["nodes"] >= 2 and rx.random() < 0.6:
+        for _ in range(rx.randint(2, 4)):
+            spec["stale_oor"].append({"client": rx.choice(members)["cid"], "nth": rx.randint(1, 20),
+                                      "hold": round(rx.uniform(2.0, 3.5), 3)})
+    faulted = {f["client"] for f in spec["faults"]}
+    calm = [m for m in members if m["cid"] not in faulted] or members
+    if rx.random() < 0.25:
+        m = rx.choice(calm)
+        m["max_poll_ms"] = rx.choice([1000, 1500])
+        m["idle"] = {"at": round(m["start"] + rx.uniform(2.0, 5.0), 3),
+                     "for": round(m["max_poll_ms"] / 1000 + rx.uniform(0.8, 3.0), 3)}
+    if len(members) >= 2 and rx.random() < 0.2:
+        m = rx.choice(calm)
+        m["session_ms"] = 1500
+        m["heartbeat_ms"] = 300
+        m["rev_sleep"] = round(rx.uniform(2.0, 3.3), 3)
 
 
 # ------------------------------------------------------------------------------------------ running
@@ -218,15 +273,15 @@ def _tps(tps):
     return sorted((tp.topic, tp.partition) for tp in tps)
 
 
-def make_listener(env, rec, cid, consumer, sleep_s):
+def make_listener(env, rec, cid, consumer, sleep_s, rev_sleep=None):
     base = env.aiokafka.ConsumerRebalanceListener
 
     class L(base):
         async def on_partitions_revoked(self, revoked):
             rec.check_sub(cid, consumer)
             rec.h("revS", cid, tps=_tps(revoked))
-            if sleep_s:
-                await asyncio.sleep(sleep_s)
+            if rev_sleep or sleep_s:
+                await asyncio.sleep(rev_sleep or sleep_s)
             rec.h("revE", cid)
 
         async def on_partitions_assigned(self, assigned):
@@ -266,11 +321,12 @@ async def member_task(env, cluster, rec, spec, ms, boot, state):
         bootstrap_servers=boot, client_id=cid, group_id=GROUP, **dkw,
         enable_auto_commit=ms["auto_commit"], auto_commit_interval_ms=ms["interval_ms"],
         auto_offset_reset="earliest", partition_assignment_strategy=(env.assignors[spec["assignor"]],),
-        session_timeout_ms=5000, rebalance_timeout_ms=5000, heartbeat_interval_ms=ms["heartbeat_ms"],
+        session_timeout_ms=ms.get("session_ms") or 5000, rebalance_timeout_ms=5000,
+        heartbeat_interval_ms=ms["heartbeat_ms"], max_poll_interval_ms=ms.get("max_poll_ms") or 300000,
         request_timeout_ms=7000, retry_backoff_ms=100, fetch_max_wait_ms=200, metadata_max_age_ms=1500,
     )
     state[cid] = c
-    listener = make_listener(env, rec, cid, c, ms["cb_sleep"])
+    listener = make_listener(env, rec, cid, c, ms["cb_sleep"], ms.get("rev_sleep"))
     rec.h("new", cid)
     if "pattern" in ms["sub"]:
         c.subscribe(pattern=ms["sub"]["pattern"], listener=listener)
@@ -295,8 +351,17 @@ async def member_task(env, cluster, rec, spec, ms, boot, state):
     resub = ms["resub"]
     n_since_commit = 0
     flip = 0
+    idle = ms.get("idle")
+    think = (ms.get("think_ms") or 0) / 1000
     while True:
         now = loop.time()
+        if idle is not None and now >= idle["at"]:
+            # the application stops polling for longer than max_poll_interval_ms, then simply goes on
+            rec.h("idle", cid, secs=idle["for"])
+            await asyncio.sleep(idle["for"])
+            rec.h("resume", cid)
+            idle = None
+            now = loop.time()
         if end["kind"] != "run" and (now >= end["at"] or rec.delivered[cid] >= end["after"] > 0):
             break
         if now >= spec["duration"]:
@@ -311,6 +376,7 @@ async def member_task(env, cluster, rec, spec, ms, boot, state):
             flip += 1
             mode = "getone" if flip % 3 == 0 else "getmany"
         got = []
+        await avoid_leave_window(cluster, cid)
         try:
             if mode == "getone":
                 try:
@@ -338,6 +404,8 @@ async def member_task(env, cluster, rec, spec, ms, boot, state):
             n_since_commit += len(got)
             rec.check_sub(cid, c)
             rec.h("snap", cid, tps=_tps(c.assignment()))
+            if think:
+                await asyncio.sleep(think)
         if ms["commit_every"] and n_since_commit >= ms["commit_every"]:
             n_since_commit = 0
             rec.h("commit_call", cid)
@@ -359,6 +427,26 @@ async def member_task(env, cluster, rec, spec, ms, boot, state):
         rec.h("gone", cid, how="stop-hung")
         rec.notes.append(f"{cid}: stop() did not return within 30 s")
     rec.gone.add(cid)
+
+
+async def avoid_leave_window(cluster, cid):
+    """the application does not poll in the 20 ms after a LeaveGroup answer was sent to it: that is the time the
+    answer travels and the coordination task needs to close the delivery gate (one auto-commit round trip at
+    most when nothing is disturbed); after it the model expects the gate closed (`leaveR`)"""
+    while True:
+        now = int(cluster.now() * 1000 + 0.5)
+        tr = cluster.trace
+        k = len(tr) - 1
+        hit = False
+        while k >= 0 and tr[k].get("vt", now) >= now - 20:
+            e = tr[k]
+            if e["ev"] == "reply" and e.get("api") == "LeaveGroup" and e.get("client") == cid:
+                hit = True
+                break
+            k -= 1
+        if not hit:
+            return
+        await asyncio.sleep(0.025)
 
 
 def kill_member(cluster, rec, cid):
@@ -507,6 +595,75 @@ def install_corruption(cluster, wanted):
     cluster.reply = reply
 
 
+def install_stale_oor(cluster, wanted, nodes):
+    """local hook (this cluster object only): the nth Fetch response with data for a client is HELD for `hold`
+    seconds; meanwhile the first partition in it moves to another leader, so the member re-fetches it there and
+    consumes on.  When the held response is released and the member has by then requested that partition at
+    a later offset (its position moved: the held response is stale), the partition's part of it is replaced by
+    OFFSET_OUT_OF_RANGE; otherwise the response goes out as it was.  A stale answer must be ignored."""
+    if not wanted or nodes < 2:
+        return
+    orig = cluster.reply
+    seen = {}
+
+    def reply(rq, **fields):
+        if rq.api_key != 1 or "topics" not in fields or not any(w["client"] == rq.client for w in wanted):
+            return orig(rq, **fields)
+        rows = [(t, row) for t, rws in fields["topics"] for row in rws if row[1] == 0 and row[-1]]
+        if not rows:
+            return orig(rq, **fields)
+        k = seen.get(rq.client, 0)
+        seen[rq.client] = k + 1
+        w = next((w for w in wanted if w["client"] == rq.client and w["nth"] == k), None)
+        if w is None:
+            return orig(rq, **fields)
+        t, row = rows[0]
+        tp = (t, row[0])
+        at = len(cluster.trace)
+        offs = None
+        for e in reversed(cluster.trace):
+            if e["ev"] == "request" and e.get("client") == rq.client and e.get("corr") == rq.corr \
+                    and e.get("api") == "Fetch" and e.get("conn") == rq.conn.cid:
+                offs = {(p["topic"], p["partition"]): p["offset"] for p in e["fields"]["partitions"]}
+                break
+        if offs is None or tp not in offs:
+            return orig(rq, **fields)
+        f0 = offs[tp]
+        cluster.trace.append({"ev": "h", "vt": int(cluster.now() * 1000 + 0.5), "op": "hold_fetch", "m": rq.client,
+                              "tp": tp, "offset": f0, "secs": w["hold"]})
+        cluster.set_leader(tp, (cluster.leaders()[tp] + 1) % nodes)
+
+        held_at = int(cluster.now() * 1000 + 0.5)
+
+        def release():
+            # stale = the member has SENT (reached a broker after the hold began; a request that waited in a
+            # connection's queue since earlier proves nothing) a fetch of this partition beyond the held offset
+            stale = False
+            for e in cluster.trace[at:]:
+                if e["ev"] == "request" and e.get("client") == rq.client and e.get("api") == "Fetch" \
+                        and e.get("arrived", -1) > held_at + 2:
+                    for p in e["fields"]["partitions"]:
+                        if (p["topic"], p["partition"]) == tp and p["offset"] > f0:
+                            stale = True
+            out = dict(fields)
+            if stale:
+                def err(r):
+                    r = list(r)
+                    r[1] = 1            # OFFSET_OUT_OF_RANGE
+                    r[-1] = b""
+                    return tuple(r)
+                out["topics"] = [(tt, [err(r) if (tt == t and r[0] == row[0]) else r for r in rws])
+                                 for tt, rws in fields["topics"]]
+            cluster.trace.append({"ev": "h", "vt": int(cluster.now() * 1000 + 0.5), "op": "release_fetch",
+                                  "m": rq.client, "tp": tp, "stale_out_of_range": stale})
+            orig(rq, **out)
+
+        cluster._timer(w["hold"], release)
+        return None
+
+    cluster.reply = reply
+
+
 def run_scenario(env, spec):
     sim = env.sim
     cluster = sim.SimCluster(nodes=spec["nodes"], topics=dict(spec["topics"]), seed=spec["seed"],
@@ -516,6 +673,7 @@ def run_scenario(env, spec):
         cluster.faults.add(sim.Fault(f["kind"], **kw))
     rec = Recorder(cluster)
     install_corruption(cluster, spec.get("corrupt") or [])
+    install_stale_oor(cluster, spec.get("stale_oor") or [], spec["nodes"])
     outcome = "done"
     try:
         sim.run(scenario_main(env, cluster, rec, spec), cluster, max_vt=spec["duration"] + 90.0)
@@ -547,6 +705,50 @@ def _assoc(pairs):
     return "|".join(f"{k}=" + ".".join(str(x) for x in v) for k, v in pairs) if pairs else "-"
 
 
+def undisturbed_events(run):
+    """{raw index: [(op, cid)]} for the two observations whose guarantee presupposes an undisturbed coordination
+    channel (no fault has been aimed at the member so far, no coordinator failover so far):
+      leaveR  a LeaveGroup answer was delivered to the member
+      expire  the coordinator expired the session of the member id the member currently uses (= the id in its
+              latest group request)"""
+    trace = run["trace"]
+    members = set(run["order"])
+    faulted, failover = set(), False
+    cur_mid, mid2cid = {}, {}
+    out = {}
+    for i, e in enumerate(trace):
+        ev = e["ev"]
+        if ev == "fault" and e.get("client") in members:
+            faulted.add(e["client"])
+        elif ev == "env" and e.get("op") == "move_coordinator":
+            failover = True
+        elif ev == "request" and e["client"] in members:
+            f = e["fields"]
+            mid = None
+            if e["api"] in ("JoinGroup", "SyncGroup", "Heartbeat", "LeaveGroup"):
+                mid = f.get("member_id")
+            elif e["api"] == "OffsetCommit":
+                mid = f.get("consumer_id")
+            if mid is not None:
+                cur_mid[e["client"]] = mid
+                if mid:
+                    mid2cid[mid] = e["client"]
+        elif ev == "reply" and e["client"] in members:
+            f = e.get("fields") or {}
+            if e["api"] == "JoinGroup" and f.get("member_id"):
+                mid2cid[f["member_id"]] = e["client"]
+                if "fault" not in e and not e.get("undelivered") and f.get("error_code") in (0, 79):
+                    cur_mid[e["client"]] = f["member_id"]
+            elif e["api"] == "LeaveGroup" and "fault" not in e and not e.get("undelivered"):
+                if e["client"] not in faulted and not failover:
+                    out.setdefault(i, []).append(("leaveR", e["client"]))
+        elif ev == "group" and e.get("op") == "expire" and e.get("group") == GROUP:
+            cid = mid2cid.get(e.get("member"))
+            if cid is not None and cur_mid.get(cid) == e["member"] and cid not in faulted and not failover:
+                out.setdefault(i, []).append(("expire", cid))
+    return out
+
+
 def to_events(env, run):
     """returns (tokens, meta): tokens = one Lean event per entry; meta[i] = index into run['trace'] of the
     raw event the token was derived from"""
@@ -565,6 +767,7 @@ def to_events(env, run):
     offfetch_slot = {}      # (conn, corr) -> slot to fill when the reply is seen delivered
     last_sync_gen = {}      # cid -> generation of the last delivered successful SyncGroup reply
     n = len(trace)
+    extra = undisturbed_events(run)
 
     def topics_of(hexmeta):
         md = env.MemberMetadata.decode(bytes.fromhex(hexmeta))
@@ -731,6 +934,8 @@ def to_events(env, run):
                     seen.add(cid)
                     pairs.append((midx[cid], tps_of(hx)))
                 out.append(f"dist:{e['generation']}:{_assoc(pairs)}")
+        for op, cid in extra.get(i, ()):
+            out.append(f"{op}:{midx[cid]}")
         slots.append([(t, i) for t in out])
     tokens, meta = [], []
     for sl in slots:
@@ -857,11 +1062,27 @@ def check_c05(run):
     cur_gen = {}         # cid -> generation of its last delivered sync reply
     hist = {h["generation"]: h for h in run["history"]}
     members = set(run["order"])
+    extra = undisturbed_events(run)
+    in_rev = {}          # cid -> inside its revoke callback
+    dead = set()
     for i, e in enumerate(trace):
         ev = e["ev"]
+        for xop, xcid in extra.get(i, ()):
+            if xop == "leaveR":
+                gate[xcid] = False      # it left the group by itself: the join preparation closes the gate
+            elif xop == "expire" and in_rev.get(xcid) and xcid not in dead:
+                bad.append(("revoke_before_assign_groupwide",
+                            f"the coordinator expired {xcid} while its revoke callback was running: the rebalance "
+                            f"completes without it and assign callbacks of the new generation start (event {i})"))
         if ev == "h":
             cid = e["m"]
             op = e["op"]
+            if op == "gone":
+                dead.add(cid)
+            if op == "revS":
+                in_rev[cid] = True
+            elif op == "revE":
+                in_rev[cid] = False
             if op == "revS":
                 gate[cid] = False
                 last_rev_end.pop(cid, None)
@@ -953,6 +1174,17 @@ def _stats(spec, run, toks):
         "handout_exceptions_crc": sum(1 for e in trace if e["ev"] == "h" and e["op"] == "raised" and e.get("exc") == "CorruptRecordException"),
         "corrupted_batches_served": sum(1 for e in trace if e["ev"] == "h" and e["op"] == "corrupt"),
         "members_with_raising_deserializer": sum(1 for m in spec["members"] if m.get("poison")),
+        "handout_exceptions_coordination": sum(1 for e in trace if e["ev"] == "h" and e["op"] == "raised"
+                                               and e.get("exc") not in ("ValueError", "CorruptRecordException")),
+        "fatal_coordination_faults_fired": sum(1 for e in trace if e["ev"] == "fault" and e.get("kind") == "error"
+                                               and e.get("code") in (30, 29, 12, 28, 24)),
+        "fetch_replies_held": sum(1 for e in trace if e["ev"] == "h" and e["op"] == "hold_fetch"),
+        "stale_out_of_range_answers": sum(1 for e in trace if e["ev"] == "h" and e["op"] == "release_fetch"
+                                          and e.get("stale_out_of_range")),
+        "idle_pauses": sum(1 for e in trace if e["ev"] == "h" and e["op"] == "idle"),
+        "self_leaves_observed": sum(1 for t in toks if t.startswith("leaveR:")),
+        "session_expiries_judged": sum(1 for t in toks if t.startswith("expire:")),
+        "slow_revoke_members": sum(1 for m in spec["members"] if m.get("rev_sleep")),
         "starts_from_committed_offset": sum(1 for t in toks if t.startswith("offer:") and t.endswith(":c")),
         "starts_from_reset": sum(1 for t in toks if t.startswith("offer:") and t.endswith(":r")),
         "fetch_replies_with_data": sum(1 for t in toks if t.startswith("fR:")),
